@@ -1,7 +1,7 @@
 #!/bin/bash
 # usage: tools/apply_eval.sh <seeded-id> <tier> <prop> [<prop>...]   -- applies seeded/<id>/patch.diff to a fresh worktree of /repo HEAD and evaluates the checks against it
 id=$1; tier=$2; shift 2
-wt=/tmp/mut/apply-$id
+wt=${VERIF_WT_DIR:-/tmp/mut}/apply-$id; mkdir -p "$(dirname $wt)"
 git -C /repo worktree remove --force $wt 2>/dev/null
 git -C /repo worktree add -q $wt HEAD || exit 2
 if ! git -C $wt apply /verif/seeded/$id/patch.diff; then echo "$id: patch does not apply to HEAD"; git -C /repo worktree remove --force $wt; exit 3; fi
